@@ -621,8 +621,7 @@ func runScriptedPeer(c *simkit.Choice, r *simkit.Rec) {
 			r.Violate("completed-with-misbehaving-peer", site, "handshake reported complete although the peer stalled")
 			return
 		}
-		ne, ok := eut.HsErr.(interface{ Timeout() bool })
-		if !ok || !ne.Timeout() {
+		if !isTimeout(eut.HsErr) {
 			r.Violate("wrong-error", site, fmt.Sprintf("peer stalled and the read deadline expired, but Handshake returned %v instead of a timeout error", eut.HsErr))
 			return
 		}
@@ -685,4 +684,19 @@ func runScriptedPeer(c *simkit.Choice, r *simkit.Rec) {
 			}
 		}
 	}
+}
+
+// isTimeout reports whether err, or anything it wraps, is a timeout error.
+func isTimeout(err error) bool {
+	for i := 0; err != nil && i < 10; i++ {
+		if ne, ok := err.(interface{ Timeout() bool }); ok && ne.Timeout() {
+			return true
+		}
+		u, ok := err.(interface{ Unwrap() error })
+		if !ok {
+			return false
+		}
+		err = u.Unwrap()
+	}
+	return false
 }
